@@ -667,12 +667,20 @@ func (db *DB) Create(o Object, s Schema) (err error) {
 			return
 		}
 
+		// schema is controlled before being saved so that a refused
+		// schema leaves nothing behind. Object files without schema can
+		// only be repaired once the schema is saved
+		cerr := s.control()
+		if cerr != nil && !errors.Is(cerr, ErrIndexCorrupted) {
+			return cerr
+		}
+
 		if err = db.saveSchema(o, &s, false); err != nil {
 			return
 		}
 
-		if err = s.control(); err != nil {
-			return
+		if cerr != nil {
+			return cerr
 		}
 
 		db.schemas[stype(o)] = &s
